@@ -68,10 +68,18 @@ def val_cases(run, n):
             nd = r.randint(1, 28 - (s - k))
             m = int("9" * nd) * 10 ** (s - k) + r.choice([4, 5, 6]) * 10 ** (s - k - 1) + (r.randint(0, 10 ** (s - k - 1) - 1) if r.random() < 0.5 else 0)
             add(sg * m, s, k, "carry")
-        elif c < 0.6:     # 96-bit mantissas
+        elif c < 0.6:     # 96-bit mantissas (mostly where the text still fits the library's buffer)
             m = r.choice([MAXM, MAXM - 1, 2 ** 95, r.randint(2 ** 64, MAXM), r.randint(2 ** 90, MAXM)])
+            if r.random() < 0.8:
+                k = r.randint(0, min(28, s + 2))
             add(sg * m, s, k, "96bit")
-        elif c < 0.65:
+        elif c < 0.64:    # around the 32-character capacity of Display (finding F18): digits + 1 + k = 31..34
+            k = r.randint(4, 28)
+            nd = max(1, min(29, 32 - k + r.choice([-2, -1, -1, 0, 0, 1])))
+            s = r.randint(0, min(3, 29 - nd))
+            m = r.randint(10 ** (nd - 1), 10 ** nd - 1) * 10 ** s + r.randint(0, 10 ** s - 1)
+            add(sg * m, s, k, "capacity")
+        elif c < 0.67:
             add(0, s, k, "zero")
         elif c < 0.8:     # powers of ten and neighbours
             e = r.randint(0, 28)
@@ -90,24 +98,31 @@ def run_val(run, cases, st):
         reqs.append({"kind": "dec", "op": "fmt_prec", "a": a, "k": c["k"]})
         reqs.append({"kind": "dec", "op": "fmt", "a": a})
     res = harness_run(reqs)
+    def text_of(x):
+        """Display result: the text, None when the library panicked; raises when neither"""
+        if x and x.get("stage") == "done" and isinstance(x.get("ok"), str):
+            return x["ok"]
+        if x and x.get("stage") == "panic":
+            return None
+        raise Infra("unexpected harness answer for a decimal operation: %r" % (x,))
+
     reqs2, keep = [], []
     for i, c in enumerate(cases):
         rr, tt, tp = res[3 * i], res[3 * i + 1], res[3 * i + 2]
-        if not all(x and x.get("stage") == "done" and "ok" in x for x in (rr, tt, tp)):
-            st["val_skipped"] += 1
-            continue
-        c["r"], c["t_trunc"], c["t_plain"] = rr["ok"], tt["ok"], tp["ok"]
+        if not (rr and rr.get("stage") == "done" and isinstance(rr.get("ok"), dict)):
+            raise Infra("round_dp_with_strategy did not answer: %r" % (rr,))
+        c["r"], c["t_trunc"], c["t_plain"] = rr["ok"], text_of(tt), text_of(tp)
         reqs2.append({"kind": "dec", "op": "fmt_prec", "a": c["r"], "k": c["k"]})
         keep.append(c)
     res2 = harness_run(reqs2)
     terms, out = [], []
     for c, x in zip(keep, res2):
-        if not (x and x.get("stage") == "done" and "ok" in x) or is_neg_zero(c["r"]):
+        if is_neg_zero(c["r"]):
             st["val_skipped"] += 1
             continue
-        c["t_round"] = x["ok"]
+        c["t_round"] = text_of(x)
         terms.append("c17_val_case %s %s %s %s %s %s" % (g_dec((c["m"], c["s"])), g_N(c["k"]), g_dec(c["r"]),
-                                                       g_str(c["t_round"]), g_str(c["t_trunc"]), g_str(c["t_plain"])))
+                                                       g_opt(c["t_round"], g_str), g_opt(c["t_trunc"], g_str), g_opt(c["t_plain"], g_str)))
         out.append(c)
     return out, terms
 
@@ -116,7 +131,7 @@ def judge_val(run, c, bits, st, distinct):
     run.cov["evaluations"] += 1
     st["val_tags"][c["tag"]] = st["val_tags"].get(c["tag"], 0) + 1
     impl = {"round_dp_with_strategy": c["r"], "rounded_text": c["t_round"], "display_only_text": c["t_trunc"], "plain": c["t_plain"]}
-    if needed(abs(c["m"]), c["s"]) > c["k"]:
+    if needed(abs(c["m"]), c["s"]) > c["k"] and c["t_round"] is not None:
         distinct.add(("v", c["t_round"], c["k"]))
     if len([s for s in run.cov["samples"] if s.get("level") == "value"]) < 2:
         run.cov["samples"].append({"level": "value", "decimal": J.dec_str(c["m"], c["s"]), "k": c["k"], "implementation": impl, "bits": bits})
@@ -126,7 +141,13 @@ def judge_val(run, c, bits, st, distinct):
     rep = {"case": {"kind": "val", "m": str(c["m"]), "s": c["s"], "k": c["k"]}, "decimal": J.dec_str(c["m"], c["s"]),
            "decimals": c["k"], "implementation_output": impl,
            "replay_hint": "Decimal(%s).round_dp_with_strategy(%d, MidpointAwayFromZero) then format!(\"{:.%d}\")" % (J.dec_str(c["m"], c["s"]), c["k"], c["k"])}
-    if not (bits & 2):
+    if c["t_round"] is None:
+        # no text at all: the library panicked while formatting the rounded figure
+        if bits & 1:
+            f18(run, st, "value", rep)          # the model predicts it: 32-character buffer, finding F18
+        else:
+            run.violation("Display panics on a figure whose text fits the 32-character buffer (outside the class of finding F18)", rep)
+    elif not (bits & 2):
         run.violation("rust_decimal rounding / formatting contradicts round-half-away-from-zero on this decimal", rep)
     elif not (bits & 1):
         run.cov["disagreements_checked"] += 1
@@ -134,9 +155,40 @@ def judge_val(run, c, bits, st, distinct):
         run.violation("correspondence broken: model Round.dround_hafz/dfmt_prec differs from rust_decimal (spec oracle clean)", rep, found_input=False)
 
 
+F18_CLASS = "display_buffer_overflow"
+
+
+def f18(run, st, level, rep):
+    """a panic inside the class of finding F18 (text longer than 32 characters)"""
+    st["f18_" + level] += 1
+    entry = [f for f in load_findings("C17") if f.get("status") == "open" and f.get("class") == F18_CLASS]
+    if entry:
+        run.known_finding(entry[0]["what"])
+    else:
+        run.violation("no text is produced: Display with precision panics (more than 32 characters) for a representable figure "
+                      "under an admitted scale setting", rep)
+
+
 # ------------------------------------------------------------------ report level
-def amount_gen(r, smin, smax):
+def amount_gen(r, smin, smax, overflow=False):
+    S = min(28, smax + 4)
+    lim = 10 ** max(0, 26 - S)          # bound of the integer part: every sum stays inside 96 bits
+
+    def clamp(ms):
+        m, s = ms
+        a = abs(m) % (lim * 10 ** s)
+        if a == 0:
+            a = 1
+        return (a if m > 0 else -a, s)
+
     def f():
+        if overflow and r.random() < 0.5:   # integer digits + 1 + min > 32 (finding F18)
+            nd = min(26, 32 - smin + r.randint(0, 2))
+            s = r.randint(0, min(2, smin - 1))
+            return (r.choice([1, -1]) * r.randint(10 ** (nd - 1), 10 ** nd - 1), s)
+        return clamp(g())
+
+    def g():
         sg = r.choice([1, -1])
         c = r.random()
         if c < 0.25 and smax < 28:          # exact midpoint at the last shown decimal (even / odd digit before)
@@ -167,10 +219,14 @@ def rep_cases(run, n):
     out = []
     for i in range(n):
         smin, smax = SCALES[i % len(SCALES)] if r.random() < 0.85 else (lambda a, b: (min(a, b), max(a, b)))(r.randint(0, 28), r.randint(0, 28))
+        over = r.random() < 0.06
+        if over:                            # a small stream inside the class of finding F18
+            smin = r.randint(8, 28)
+            smax = r.randint(smin, 28)
         g = J.Gen(r, max_depth=3, n_accounts=r.randint(2, 6), comms=r.sample(["", "EUR", "He·bar", "€"], r.randint(1, 2)))
-        g.amount = amount_gen(r, smin, smax)
-        ts = g.journal(r.randint(1, 5), prices=False, meta=False, implicit_p=0.3)
-        out.append({"kind": "rep", "smin": smin, "smax": smax, "text": J.print_journal(ts), "tag": "gen"})
+        g.amount = amount_gen(r, smin, smax, overflow=over)
+        ts = g.journal(r.randint(1, 2) if over else r.randint(1, 5), prices=False, meta=False, implicit_p=0.3)
+        out.append({"kind": "rep", "smin": smin, "smax": smax, "text": J.print_journal(ts), "tag": "overflow" if over else "gen"})
     return out
 
 
@@ -267,6 +323,27 @@ def parse_register(text, entries):
     return figs, sums
 
 
+def exact_figs(bals):
+    """the figures of balance reports, without texts (used when the report panicked)"""
+    figs = []
+    for b in bals:
+        for row in b["rows"]:
+            figs.append((row["own"], "", False, "own sum of %s %s" % (row["acc"], row["comm"])))
+            figs.append((row["tree"], "", True, "tree sum of %s %s" % (row["acc"], row["comm"])))
+        for d in b["deltas"]:
+            figs.append((d["delta"], "", False, "delta of %r" % d["comm"]))
+    return figs
+
+
+def exact_reg_figs(entries):
+    figs = []
+    for e in entries:
+        for row in e["rows"]:
+            figs.append((row["amount"], "", False, "amount of %s" % row["acc"]))
+            figs.append((row["total"], "", False, "running total of %s" % row["acc"]))
+    return figs
+
+
 def rep_requests(cases):
     reqs = []
     for c in cases:
@@ -294,18 +371,26 @@ def run_rep(run, cases, st):
         if stg != "done":
             continue
         rs = rr["results"]
-        if not all("ok" in x for x in rs):
+        if not all("ok" in rs[i] for i in (0, 1, 3, 5)) or not all(("ok" in rs[i]) or rs[i].get("panic") for i in (2, 4, 6)):
             st["rep_op_failed"] += 1
             continue
-        txns, bal, tbal, grp, tgrp, reg, treg = [x["ok"] for x in rs]
+        txns, bal, tbal, grp, tgrp, reg, treg = [x.get("ok") for x in rs]
         try:
-            parts = [("balance", tbal) + parse_balance(tbal, bal, txns),
-                     ("balance-group", tgrp) + parse_balgrp(tgrp, grp),
-                     ("register", treg) + parse_register(treg, reg)]
+            parts = [("balance", tbal) + (parse_balance(tbal, bal, txns) if tbal is not None else (exact_figs([bal]), None)),
+                     ("balance-group", tgrp) + (parse_balgrp(tgrp, grp) if tgrp is not None else (exact_figs(grp), None)),
+                     ("register", treg) + (parse_register(treg, reg) if treg is not None else (exact_reg_figs(reg), None))]
         except (ParseError, IndexError) as e:
             raise Infra("C17 report text parser does not understand the report (check the parser, not the code): %s" % e)
         for name, text, figs, sums in parts:
             if not figs:
+                continue
+            if text is None:
+                # the report panicked: does the model say that some figure has no text?
+                if any(is_neg_zero(f[0]) for f in figs):
+                    st["neg_zero_skipped"] += 1
+                    continue
+                terms.append("c17_rep_panics (mkScale %s %s) %s" % (g_N(c["smin"]), g_N(c["smax"]), g_list([g_fig(f) for f in figs])))
+                out.append({"case": c, "report": name, "text": None, "figs": figs, "sums": []})
                 continue
             if any(is_neg_zero(f[0]) for f in figs) or any(is_neg_zero(t) or any(is_neg_zero(p) for p in ps) for t, ps in sums):
                 st["neg_zero_skipped"] += 1      # sign of zero is outside the model (Dec.v)
@@ -323,6 +408,16 @@ def run_rep(run, cases, st):
 def judge_rep(run, o, val, st, distinct):
     run.cov["evaluations"] += 1
     c = o["case"]
+    if o["text"] is None:
+        rep = {"case": c, "scale": {"min": c["smin"], "max": c["smax"]}, "report": o["report"], "journal": c["text"],
+               "implementation_output": "panic while writing the text report",
+               "figures": [J.dec_str(*dec_parts(f[0])) for f in o["figs"]][:20],
+               "replay_hint": "tackler --config <toml with report.scale = {min=%d,max=%d}> --input.file <journal> --reports %s" % (c["smin"], c["smax"], o["report"])}
+        if val == 1:
+            f18(run, st, "report", rep)
+        else:
+            run.violation("%s text report panics although every figure fits the 32-character buffer (outside the class of finding F18)" % o["report"], rep)
+        return
     bits, bad = val & 7, val >> 3
     smax = c["smax"]
     st["figures"] += len(o["figs"])
@@ -379,7 +474,7 @@ def load_corpus():
 
 def check_cases(run, vcases, rcases):
     st = {"val_skipped": 0, "val_outside": 0, "val_tags": {}, "stages": {}, "rep_op_failed": 0, "neg_zero_skipped": 0,
-          "rep_outside": 0, "figures": 0, "figures_rounded": 0, "figures_midpoint": 0, "negative_shown_as_zero": 0, "scales": {}}
+          "rep_outside": 0, "f18_value": 0, "f18_report": 0, "figures": 0, "figures_rounded": 0, "figures_midpoint": 0, "negative_shown_as_zero": 0, "scales": {}}
     vout, vterms = run_val(run, vcases, st)
     rout, rterms = run_rep(run, rcases, st)
     vals, errs = coq_eval("C17", IMPORTS, vterms + rterms)
@@ -419,7 +514,8 @@ def main(run):
                       "report_stages": st["stages"], "reports_by_scale": st["scales"], "report_figures": st["figures"],
                       "report_figures_rounded": st["figures_rounded"], "report_figures_exact_midpoint": st["figures_midpoint"],
                       "negative_figures_shown_as_zero": st["negative_shown_as_zero"], "reports_skipped_negative_zero_figure": st["neg_zero_skipped"],
-                      "reports_outside_domain": st["rep_outside"], "report_ops_failed": st["rep_op_failed"]})
+                      "reports_outside_domain": st["rep_outside"], "report_ops_failed": st["rep_op_failed"],
+                      "panics_in_class_F18": {"value_level": st["f18_value"], "reports": st["f18_report"]}})
     return run.finish(info)
 
 
